@@ -3,19 +3,21 @@
 use lattices::{Conflict, Lattice, Max, Min, WithBot};
 
 use crate::model::*;
-use crate::types::Lat;
+use crate::types::{HasModel, Lat};
 
 #[derive(Clone, Debug, Default, Lattice)]
 pub struct D1<A> {
     pub only: A,
 }
-impl<A: Lat> Lat for D1<A> {
+impl<A: HasModel> HasModel for D1<A> {
     type M = (A::M, MUnit);
-    fn sym() -> Self {
-        D1 { only: A::sym() }
-    }
     fn model(&self) -> Self::M {
         (self.only.model(), MUnit)
+    }
+}
+impl<A: Lat> Lat for D1<A> {
+    fn sym() -> Self {
+        D1 { only: A::sym() }
     }
 }
 
@@ -24,13 +26,15 @@ pub struct D2<A, B> {
     pub first: A,
     pub second: B,
 }
-impl<A: Lat, B: Lat> Lat for D2<A, B> {
+impl<A: HasModel, B: HasModel> HasModel for D2<A, B> {
     type M = (A::M, B::M);
-    fn sym() -> Self {
-        D2 { first: A::sym(), second: B::sym() }
-    }
     fn model(&self) -> Self::M {
         (self.first.model(), self.second.model())
+    }
+}
+impl<A: Lat, B: Lat> Lat for D2<A, B> {
+    fn sym() -> Self {
+        D2 { first: A::sym(), second: B::sym() }
     }
 }
 
@@ -41,25 +45,29 @@ pub struct D3 {
     pub lo: Min<i8>,
     pub opt: WithBot<Max<u16>>,
 }
-impl Lat for D3 {
+impl HasModel for D3 {
     type M = (MMax<u8>, MMin<i8>, MBot<MMax<u16>>);
-    fn sym() -> Self {
-        D3 { hi: Lat::sym(), lo: Lat::sym(), opt: Lat::sym() }
-    }
     fn model(&self) -> Self::M {
         (self.hi.model(), self.lo.model(), self.opt.model())
+    }
+}
+impl Lat for D3 {
+    fn sym() -> Self {
+        D3 { hi: Lat::sym(), lo: Lat::sym(), opt: Lat::sym() }
     }
 }
 
 /// Tuple struct.
 #[derive(Clone, Debug, Lattice)]
 pub struct DT<A>(pub A, pub Max<u8>);
-impl<A: Lat> Lat for DT<A> {
+impl<A: HasModel> HasModel for DT<A> {
     type M = (A::M, MMax<u8>);
-    fn sym() -> Self {
-        DT(A::sym(), Lat::sym())
-    }
     fn model(&self) -> Self::M {
         (self.0.model(), self.1.model())
+    }
+}
+impl<A: Lat> Lat for DT<A> {
+    fn sym() -> Self {
+        DT(A::sym(), Lat::sym())
     }
 }
